@@ -3,8 +3,8 @@ from props import seqcases, C02 as _C02, C03 as _C03
 
 LEVEL = "other"
 TECHNIQUE = "bounded inductive contract check (CBMC) on the real container operations over an element model with a finalisation ledger / exceptional postconditions"
-LEVEL_TEXT = 'Cursor protocol of Array, List, Tuple and Table checked on arbitrary well-formed containers of bounded size: forward iteration yields element i at step i and ends with Terminal after len items, backward is the exact reverse, the cursor never leaves the allocation. Range/Slice/Zip/Filter/Map views are not under contract yet.'
-NOTE = 'bounded sizes as in C02/C04; Tuple with a repeated item is a listed known finding'
+LEVEL_TEXT = 'Cursor protocol of Array, List, Tuple, Table and Tree on arbitrary well-formed containers of bounded size (forward yields item i at step i and ends with Terminal after len items, backward is the exact reverse, the cursor never leaves the allocation), plus the views: Range arithmetic against ceil((stop-start)/|step|) with one concrete step per obligation set and symbolic bounds, Slice_Arg clamping for every int64 argument, Slice / Zip / Filter / Map over ghost underlying iterables of up to 4 elements.'
+NOTE = 'bounded sizes; Tuple with a repeated item, Slice iteration ignoring stop and Zip backward iteration with unequal inputs are listed known findings; nesting of views not explored'
 EXPLANATION = LEVEL_TEXT
 TRUSTED = []
 
